@@ -11,6 +11,12 @@ are the Go meaning of such terms: calls on frames (`Apply(Instruction{…})`, `D
 `withErr`), `ctx.GetFunc` and the temp-name function are primitives whose meaning is the frame mirror's (`Fr.applyConst` /
 `apply1` / `apply2`, `C08.drop`, `C08.copy`, `Fr.contains`, the name map, `Fr.Ctx`). Proved here, over the terms generated TODAY:
 
+* `gen_missingcol_semantics` — today's `missingCol` (regenerated as `Gen.missingColAst`, language `EV.EMiss`: the type switch
+  by struct role, the column fields by type and declaration order, the recursion into the `Expression` fields, the final
+  loop) returns, for every expression tree and frame, the FIRST column reference of the tree, in left-to-right order, that is
+  not a column of the frame, and `("", false)` when every reference is a column. `Eval` calls it right after the `qf.Err`
+  guard and answers with an error when a column is missing: column references are resolved against the frame `Eval` is
+  called on, never against temporaries (the repair of the temp-name capture found in C07EndToEnd).
 * `gen_eval_no_opaque` — everything was understood.
 * `gen_eval_canon` — finite `decide`: today's terms are the canonical terms `canonFns` / `canonTemp` written out below.
   Insensitive to names of locals, fields, methods and helper functions and to how the helpers are split; sensitive to
@@ -97,12 +103,21 @@ def canonEx2 : EP :=
 
 def canonError : EP := failedElse ET.qf (EP.ret (ET.withErr ET.qf ET.errF) (ET.str ""))
 
+/-- `result, col := expr.execute(qf, conf.Ctx); result = result.Copy(dstCol, colName);
+if !qf.Contains(colName) && colName != dstCol { result = result.Drop(colName) }; return result` -/
+def evalTail : EP :=
+  EP.exec ET.exprP ET.qf
+    (EP.ite (EC.and (EC.not (EC.contains ET.qf (ET.outN 0))) (EC.not (EC.strEq (ET.outN 0) ET.dstP)))
+      (EP.retF (ET.drop1 (ET.copy (ET.outF 0) ET.dstP (ET.outN 0)) (ET.outN 0)))
+      (EP.retF (ET.copy (ET.outF 0) ET.dstP (ET.outN 0))))
+
+/-- `if qf.Err != nil { return qf }; if col, missing := missingCol(expr, qf); missing { return qf.withErr(qerrors.New(…)) }; …` -/
 def canonEval : EP :=
   EP.ite (EC.notNil (ET.errOf ET.qf)) (EP.retF ET.qf)
-    (EP.exec ET.exprP ET.qf
-      (EP.ite (EC.and (EC.not (EC.contains ET.qf (ET.outN 0))) (EC.not (EC.strEq (ET.outN 0) ET.dstP)))
-        (EP.retF (ET.drop1 (ET.copy (ET.outF 0) ET.dstP (ET.outN 0)) (ET.outN 0)))
-        (EP.retF (ET.copy (ET.outF 0) ET.dstP (ET.outN 0)))))
+    (EP.ite (EC.missing ET.exprP ET.qf) (EP.retF (ET.withErr ET.qf ET.newErr)) evalTail)
+
+/-- `Eval` as it was before the repair: no check of the column references -/
+def oldEval : EP := EP.ite (EC.notNil (ET.errOf ET.qf)) (EP.retF ET.qf) evalTail
 
 def canonFns : Progs := [
   (.exec .col, canonCol), (.exec .const, canonConst), (.exec .unary, canonUnary), (.exec .colConst, canonColConst),
@@ -111,12 +126,21 @@ def canonFns : Progs := [
 
 def canonTemp : ETmp := .search 0 10000 [.pre, .lit "-temp-", .itoa]
 
+/-- `missingCol`: the column fields of `colExpr`, `unaryExpr`, `colConstExpr`, `colColExpr` (both, in declaration order);
+`exprExpr1` / `exprExpr2` recurse into their operands, left before right; `constExpr`, `errorExpr`: no clause -/
+def canonClauses : List (Role × EMClause) :=
+  [(.col, .cols [0]), (.unary, .cols [0]), (.colConst, .cols [0]), (.colCol, .cols [0, 1]),
+   (.ex1, .recur [0]), (.ex2, .recur [0, 1])]
+def canonMiss : EMiss := .scan canonClauses
+
 /-- **`gen_eval_no_opaque`.** -/
 theorem gen_eval_no_opaque :
-    (Gen.evalFns.all (fun p => !p.2.hasOpaque) && !Gen.tempColNameAst.hasOpaque) = true := by decide
+    (Gen.evalFns.all (fun p => !p.2.hasOpaque) && !Gen.tempColNameAst.hasOpaque && !Gen.missingColAst.hasOpaque) = true := by
+  decide
 
 /-- **`gen_eval_canon`.** -/
-theorem gen_eval_canon : Gen.evalFns = canonFns ∧ Gen.tempColNameAst = canonTemp := by decide
+theorem gen_eval_canon : Gen.evalFns = canonFns ∧ Gen.tempColNameAst = canonTemp ∧ Gen.missingColAst = canonMiss := by
+  decide
 
 /-! ## 2. the temp-name function -/
 
@@ -139,7 +163,7 @@ column of `f`, and panics (`none`) exactly when there is no such `k`. -/
 theorem gen_temp_semantics (f : Frame) (pre : String) :
     Gen.tempColNameAst.run f pre =
       ((List.range 10000).find? (fun i => (f.byName (tempName pre i)).isNone)).map (tempName pre) := by
-  rw [gen_eval_canon.2]; exact canonTemp_run f pre
+  rw [gen_eval_canon.2.1]; exact canonTemp_run f pre
 
 /-- **`gen_temp_no_panic`.** On a well-formed frame with fewer than 10000 columns today's `tempColName` returns a name that is
 not a column. -/
@@ -292,16 +316,56 @@ theorem canon_execute (ctx : Ctx) (e : Ex') :
     intro f
     exact call_ex2 ctx 1 op (toNode l) (toNode r) _ _ (fun g => execute' ctx l g) (fun g => execute' ctx r g) ihl ihr f
 
+theorem step_ex1 (op : String) (n : Node) (h : Frame → Option (Option String)) (f : Frame) :
+    EMiss.step canonClauses (.ex1 op n) [h] f = h f := by
+  have hl : canonClauses.lookup Role.ex1 = some (.recur [0]) := by decide
+  simp [EMiss.step, Node.role, hl, Node.subCount, firstFound]
+
+theorem step_ex2 (op : String) (l r : Node) (h1 h2 : Frame → Option (Option String)) (f : Frame) :
+    EMiss.step canonClauses (.ex2 op l r) [h1, h2] f =
+      (match h1 f with
+       | none => none
+       | some (some c) => some (some c)
+       | some none => h2 f) := by
+  have hl : canonClauses.lookup Role.ex2 = some (.recur [0, 1]) := by decide
+  simp [EMiss.step, Node.role, hl, Node.subCount, firstFound]
+  cases h1 f with
+  | none => rfl
+  | some o => cases o <;> rfl
+
+/-- the canonical `missingCol` is the mirror's `missing`, for every expression tree -/
+theorem canon_miss (e : Ex') : ∀ f : Frame, canonMiss.run (toNode e) f = some (missing e f) := by
+  induction e with
+  | ex1 op e ih =>
+    intro f
+    simp only [toNode, canonMiss, EMiss.run, EMiss.scanRun] at ih ⊢
+    rw [step_ex1, ih]; rfl
+  | ex2 op l r ihl ihr =>
+    intro f
+    simp only [toNode, canonMiss, EMiss.run, EMiss.scanRun] at ihl ihr ⊢
+    rw [step_ex2, ihl, ihr]
+    simp only [missing]
+    cases missing l f <;> rfl
+  | col n => intro f; rfl
+  | const v => intro f; rfl
+  | unary op s => intro f; rfl
+  | colConst op s v cf => intro f; rfl
+  | colCol op a b => intro f; rfl
+  | error => intro f; rfl
+
 theorem canon_eval (ctx : Ctx) (f : Frame) (dst : String) (e : Ex') :
-    interpEval prims canonFns Fr.tempColName ctx f dst (toNode e) = some (eval' ctx f dst e) := by
-  simp only [interpEval, lookup_eval, canonEval, EP.run, EC.eval, ET.eval, prims_drop, prims_copy, eval', evalEpilogue]
+    interpEval prims canonFns Fr.tempColName canonMiss.run ctx f dst (toNode e) = some (eval' ctx f dst e) := by
+  simp only [interpEval, lookup_eval, canonEval, evalTail, EP.run, EC.eval, ET.eval, prims_drop, prims_copy, eval',
+    evalEpilogue, List.getElem?_cons_zero, Option.bind_some, canon_miss, Option.map_some]
   cases f.err.isSome
-  · simp only [List.getElem?_cons_zero, canon_execute, List.nil_append, Option.map_some, Bool.false_eq_true, ↓reduceIte]
-    cases contains f (execute' ctx e f).2 <;> cases h : ((execute' ctx e f).2 == dst) <;> simp [bne, h]
+  · cases (missing e f).isSome
+    · simp only [canon_execute, List.nil_append, Option.map_some, Bool.false_eq_true, ↓reduceIte, List.getElem?_cons_zero]
+      cases contains f (execute' ctx e f).2 <;> cases h : ((execute' ctx e f).2 == dst) <;> simp [bne, h]
+    · simp [withErr]
   · simp
 
 theorem temp_eq : Gen.tempColNameAst.name = Fr.tempColName := by
-  funext f pre; rw [gen_eval_canon.2]; exact canonTemp_name f pre
+  funext f pre; rw [gen_eval_canon.2.1]; exact canonTemp_name f pre
 
 /-! ## 4. today's code -/
 
@@ -311,7 +375,7 @@ def genExecute (ctx : Ctx) (e : Ex') (f : Frame) : Option EV.Res :=
 
 /-- `f.Eval(dst, e)` with the context `ctx`, by today's regenerated code -/
 def genEval (ctx : Ctx) (f : Frame) (dst : String) (e : Ex') : Option Frame :=
-  interpEval prims Gen.evalFns Gen.tempColNameAst.name ctx f dst (toNode e)
+  interpEval prims Gen.evalFns Gen.tempColNameAst.name Gen.missingColAst.run ctx f dst (toNode e)
 
 /-- **`gen_eval_semantics`.** For every expression tree, frame and evaluation context, interpreting today's `execute`
 methods (with today's `getFunc`, `tempColName` and constructors) yields exactly the hand mirror's result: the result frame
@@ -325,8 +389,26 @@ theorem gen_eval_semantics (ctx : Ctx) (e : Ex') (f : Frame) : genExecute ctx e 
 theorem gen_eval_semantics_eval (ctx : Ctx) (f : Frame) (dst : String) (e : Ex') :
     genEval ctx f dst e = some (eval' ctx f dst e) := by
   unfold genEval
-  rw [gen_eval_canon.1, temp_eq]
+  rw [gen_eval_canon.1, temp_eq, gen_eval_canon.2.2]
   exact canon_eval ctx f dst e
+
+/-- **`gen_missingcol_semantics`.** Today's regenerated `missingCol`, on every expression tree and frame, returns the first
+column reference of the tree, in left-to-right order (`refs`), that is not a column of the frame — `(c, true)` — and
+`("", false)` when every reference is a column (`none`). It always has a meaning: nothing untranslated, no panic. -/
+theorem gen_missingcol_semantics (e : Ex') (f : Frame) :
+    Gen.missingColAst.run (toNode e) f = some ((refs e).find? fun n => !Fr.contains f n) := by
+  rw [gen_eval_canon.2.2, canon_miss, missing_eq_find]
+
+/-- what `Eval` does with the answer: a missing column reference is an error of the frame `Eval` was called on, and nothing
+is executed; otherwise (every reference is a column of the frame) `Eval` executes the expression and renames the result -/
+theorem gen_eval_guard (ctx : Ctx) (f : Frame) (dst : String) (e : Ex') (he : f.err = none) :
+    (∀ c, (refs e).find? (fun n => !Fr.contains f n) = some c → genEval ctx f dst e = some (withErr f .other)) ∧
+    ((refs e).find? (fun n => !Fr.contains f n) = none →
+      genEval ctx f dst e = some (evalEpilogue f dst (execute' ctx e f).1 (execute' ctx e f).2)) := by
+  rw [gen_eval_semantics_eval, ← missing_eq_find]
+  constructor
+  · intro c hc; simp [eval', he, hc]
+  · intro hc; simp [eval', he, hc]
 
 /-- a constant of the spec as a value of the frame mirror -/
 def cellVal : QF.Cell → Fr.Val
@@ -390,8 +472,9 @@ theorem isSome_of_eq {α : Type} {o : Option α} {x : α} (h : o = some x) : o.i
 
 /-- **`gen_eval_error_propagates`.** Errors in today's code: (1) every `execute` returns a failed frame as it is;
 (2), (3) the error of the result of an operand of a nested expression is the error of the nested expression's result
-(for the right operand: of its result on the frame the left operand returned); (4) the error of the expression's result is
-the error of `Eval`'s result. -/
+(for the right operand: of its result on the frame the left operand returned); (4) when the expression's result carries an
+error, so does `Eval`'s — the same error when every column reference is a column of the frame, the error of the
+missing-column check otherwise (`Eval` does not execute the expression then). -/
 theorem gen_eval_error_propagates (ctx : Ctx) :
     (∀ e f, f.err.isSome = true → ∃ n, genExecute ctx e f = some (f, n)) ∧
     (∀ op e f r x, genExecute ctx e f = some r → r.1.err = some x →
@@ -400,7 +483,7 @@ theorem gen_eval_error_propagates (ctx : Ctx) :
       (rl.1.err = some x ∨ rr.1.err = some x) →
       ∃ r', genExecute ctx (.ex2 op l r) f = some r' ∧ r'.1.err = some x) ∧
     (∀ e f dst r x, f.err = none → genExecute ctx e f = some r → r.1.err = some x →
-      ∃ g, genEval ctx f dst e = some g ∧ g.err = some x) := by
+      ∃ g, genEval ctx f dst e = some g ∧ g.err.isSome = true ∧ (missing e f = none → g.err = some x)) := by
   refine ⟨?_, ?_, ?_, ?_⟩
   · intro e f h
     refine ⟨(execute' ctx e f).2, ?_⟩
@@ -433,9 +516,13 @@ theorem gen_eval_error_propagates (ctx : Ctx) :
     cases hr
     refine ⟨_, gen_eval_semantics_eval ctx f dst e, ?_⟩
     have hs := isSome_of_eq hx
-    simp only [eval', hf, Option.isSome_none, Bool.false_eq_true, ↓reduceIte, evalEpilogue]
-    rw [copy_of_err _ _ _ hs, drop_of_err _ _ hs]
-    simp [hx]
+    have hep : (evalEpilogue f dst (execute' ctx e f).1 (execute' ctx e f).2).err = some x := by
+      simp only [evalEpilogue]
+      rw [copy_of_err _ _ _ hs, drop_of_err _ _ hs]
+      simp [hx]
+    cases hm : missing e f with
+    | some c => simp [eval', hf, hm, withErr]
+    | none => simp [eval', hf, hm, hep]
 
 /-! ## 6. witnesses: four mutations of the code, as the terms the extractor writes for them
 
@@ -519,6 +606,36 @@ example : mutNoFlip ≠ canonFns := by decide
 example : observeCol mutNoFlip (.colConst "-" "a" (.int 10) true) =
     some (some ("colcol-temp-0", .int, [some (.int 2), some (.int 0), some (.int 1)])) := by decide +kernel
 
+/-- (e) `Eval` without its check of the column references — the code as it was before the repair -/
+def mutNoCheck : Progs := setFn canonFns .eval oldEval
+
+/-- `(a + a) + Col("colcol-temp-0")` on a frame without such a column -/
+def witCapture : Ex' := .ex2 "+" (.colCol "+" "a" "a") (.col "colcol-temp-0")
+
+/-- `Eval` by the table `P`: error and column names of the result -/
+def observeEval (P : Progs) (M : EMiss) (dst : String) (e : Ex') : Option (Option Err × List String) :=
+  (interpEval prims P Gen.tempColNameAst.name M.run intCtx exF dst (toNode e)).map fun g => (g.err, g.abs.map (·.1))
+
+example : mutNoCheck ≠ canonFns := by decide
+/-- the old term accepts the expression: the reference is satisfied by the temp column of the left operand … -/
+example : observeEval mutNoCheck canonMiss "y" witCapture = some (none, ["a", "b", "y"]) := by decide +kernel
+/-- … today's term rejects it, and leaves the frame as it was -/
+example : observeEval canonFns canonMiss "y" witCapture = some (some .other, ["a", "b"]) := by decide +kernel
+example : Gen.missingColAst.run (toNode witCapture) exF = some (some "colcol-temp-0") := by decide +kernel
+
+/-- (f) `missingCol` searching the right operand of `exprExpr2` first: another column is reported -/
+def mutMissOrder : EMiss :=
+  .scan [(.col, .cols [0]), (.unary, .cols [0]), (.colConst, .cols [0]), (.colCol, .cols [0, 1]),
+         (.ex1, .recur [0]), (.ex2, .recur [1, 0])]
+example : mutMissOrder ≠ canonMiss := by decide
+example : canonMiss.run (toNode (.ex2 "+" (.col "x") (.col "y"))) exF = some (some "x") ∧
+    mutMissOrder.run (toNode (.ex2 "+" (.col "x") (.col "y"))) exF = some (some "y") := by decide +kernel
+/-- (g) `missingCol` without the clause for `colConstExpr`: `zz + 1` passes the check -/
+def mutMissNoColConst : EMiss :=
+  .scan [(.col, .cols [0]), (.unary, .cols [0]), (.colCol, .cols [0, 1]), (.ex1, .recur [0]), (.ex2, .recur [0, 1])]
+example : canonMiss.run (toNode (.colConst "+" "zz" (.int 1) false)) exF = some (some "zz") ∧
+    mutMissNoColConst.run (toNode (.colConst "+" "zz" (.int 1) false)) exF = some none := by decide +kernel
+
 /-- and the hypotheses of `gen_eval_bookkeeping` are satisfiable; today's code computes what it says -/
 example : WF exF 3 ∧ UniqueNames exF ∧ physLen exF = 3 ∧ exF.cols.length + need witNested ≤ 10000 ∧ checkName "y" = true :=
   ⟨exF_wf, exF_unique, by decide +kernel, by decide +kernel, by decide +kernel⟩
@@ -534,6 +651,8 @@ example : (genEval intCtx exF "a" (.colConst "-" "a" (.int 10) true)).map (fun g
 #print axioms gen_temp_no_panic
 #print axioms gen_eval_semantics
 #print axioms gen_eval_semantics_eval
+#print axioms gen_missingcol_semantics
+#print axioms gen_eval_guard
 #print axioms gen_eval_semantics_decoded
 #print axioms gen_eval_bookkeeping
 #print axioms gen_eval_error_propagates
